@@ -94,6 +94,8 @@ def main(prop, tier, seed, replay):
             continue
         reported.add(sig)
         nviol += 1
+        if nviol > 5:
+            continue
         rp = vlib.write_replay(prop, '%s_%d' % (f.kind, nviol),
                                dict(property=prop, kind=f.kind, where=f.where, detail=f.detail, seed=seed, tier=tier, **f.replay))
         print('VIOLATION property=%s replay=%s' % (prop, rp))
